@@ -151,12 +151,31 @@ def nextLine (s : Scr) (c : Car) : Res Car := limit s (checkScrollDown s { c wit
 /-- `Buffer::print_char` on a terminal buffer -/
 def printChar (s : Scr) (c : Car) : Res (Scr × Car) :=
   if c.ins = true ∧ c.y < 0 then .error (.negIndex "print_char insert: lines.resize(y as usize + 1)")
+  else if c.ins = true ∧ c.x < 0 then .error (.negIndex "print_char insert: Line::insert_char(x): chars.insert(x as usize)")
   else
     let s1 : Scr := { s with bh := max s.bh (c.y + 1) }   -- `if y + 1 > height { set_height(y + 1) }`
     let c1 : Car := { c with x := c.x + 1 }
     if c1.x ≥ s1.tw then
       if s1.autowrap = true then lf s1 c1 else .ok (s1, { c1 with x := c1.x - 1 })
     else .ok (s1, c1)
+
+/-! ## content operations that index a row or the row table with the cursor
+Their effect on cells is not modelled, but the places where they turn a cursor coordinate or a margin into an
+index are: a negative value there is a Rust panic (`as usize` index out of range, `assert!(index >= 0)`).  The
+conditions are *conservative*: they do not know whether the addressed row exists (`lines.get_mut(y)` skips the
+operation when it does not), so they may report a panic where the code would return early — only in states with a
+negative cursor coordinate or margin, which the theorems show unreachable. -/
+/-- bottom margin as `Buffer::{insert,remove}_terminal_line` read it (`(_, end)` of the top/bottom margins) -/
+def mtbBottom (s : Scr) : Int := match s.mtb with | some (_, e) => e | none => 0
+/-- `Buffer::insert_terminal_line(y)`: `lines.remove(end as usize)` when `end < line_count` (true for a negative
+    `end`), then `Layer::insert_line(y)` asserts `y >= 0`; `Buffer::remove_terminal_line(y)`: `Layer::remove_line(y)`
+    asserts `y >= 0` (after `y >= line_count` returned early), then `insert_line(end)` asserts `end >= 0` -/
+def LineOpPanics (s : Scr) (y : Int) : Prop := y < 0 ∨ mtbBottom s < 0
+instance (s : Scr) (y : Int) : Decidable (LineOpPanics s y) := by unfold LineOpPanics; infer_instance
+/-- `Caret::erase_charcter(n)`: `n' = min(width - x, n)`; for `n' > 0` and an existing row `Line::set_char(x)`
+    indexes `chars[x as usize]` -/
+def EchPanics (s : Scr) (c : Car) (n : Int) : Prop := c.x < 0 ∧ min (s.tw - c.x) n > 0
+instance (s : Scr) (c : Car) (n : Int) : Decidable (EchPanics s c n) := by unfold EchPanics; infer_instance
 
 /-- `print_char` n times (REP, Avatar repeat) -/
 def printN : Nat → Scr → Car → Res (Scr × Car)
@@ -168,9 +187,26 @@ def printN : Nat → Scr → Car → Res (Scr × Car)
     | .error e => .error e
 
 /-! ## parser state -/
+/-- `sound::MusicState` with its payloads -/
 inductive MusicSt where
-  | style | octave | other
+  | dflt | style | tempo (x : Nat) | pause (x : Int) | octave | note (n : Nat) (len : Int) | length (x : Int)
 deriving Repr, DecidableEq, Inhabited
+
+/-- `sound::MusicAction`; a note is the index into `FREQ` (84 entries), a style 0..4 = F B N L S -/
+inductive MAct where
+  | note (idx : Nat) (len : Int) (dotted : Bool) | pause (v : Int) | style (s : Nat)
+deriving Repr, DecidableEq, Inhabited
+
+/-- the music fields of `ansi::Parser` + what `PlayMusic` handed out last -/
+structure Mus where
+  oct : Nat := 3             -- cur_octave
+  mlen : Int := 4            -- cur_length
+  tempo : Int := 120         -- cur_tempo
+  dotted : Bool := false     -- dotted_note
+  acts : List MAct := []     -- cur_music.music_actions
+  last : List MAct := []     -- payload of the last `CallbackAction::PlayMusic`
+  tunes : Nat := 0           -- number of `PlayMusic` actions so far
+deriving Repr, Inhabited
 
 inductive PSt where
   | dflt | esc | csi (start : Bool) | csiCmd | csiReq | rip | devAttr | endCsi (c : Char)
@@ -188,6 +224,7 @@ structure Par where
   budget : Nat := 0
   tick : Nat := 0                -- index of the next oracle read
   resized : Bool := false        -- a text-area resize (CSI 8;h;w t) was executed, possibly inside a macro
+  mus : Mus := {}
 deriving Repr, Inhabited
 
 /-- configuration that never changes during a run -/
@@ -332,22 +369,84 @@ def executeDcs (p : Par) (o : Orc) : Par × Out :=
     | 'q' :: _ => ({ p with str := [] }, .ok)   -- sixel decode thread spawned; `mem::take(parse_string)`
     | _ => (p, .err)
 
-/-! ## ANSI music state machine (`sound.rs`), control flow only.
-Tempo/length/pause/note states consume digits, '.', '+', '#', '-' which the default state ignores as well, and hand
-every other character to `parse_default_ansi_music` exactly like the default state does; so for control flow
-(when does the 0x0E terminator end music mode, which characters report Err) they are one state, `other`. -/
-def musicDefault (ch : Char) : PSt :=
-  if ch = '\x0e' then .dflt
-  else if ch = 'O' then .music .octave
-  else if ch = 'M' then .music .style
-  else .music .other
+/-! ## ANSI music state machine (`sound.rs`): states with their payloads, octave / length / tempo, the action list
+of the tune being read, and what the terminator `0x0E` hands out (`PlayMusic`).  `SetLength` and `Pause` do not
+reset the parser state before they pass a character on to `parse_default_ansi_music` (so a pause is emitted again
+for every further ignored character) — copied. -/
+def FREQ_LEN : Nat := 84
 
-def musicStep (m : MusicSt) (ch : Char) : PSt × Out :=
+/-- `parse_default_ansi_music`; `cur` is the state `self.state` holds when it is called -/
+def musicDefault (cur : MusicSt) (mus : Mus) (ch : Char) : PSt × Mus :=
+  if ch = '\x0e' then (.dflt, { mus with oct := 3, last := mus.acts, acts := [], tunes := mus.tunes + 1 })
+  else if ch = 'T' then (.music (.tempo 0), mus)
+  else if ch = 'L' then (.music (.length 0), mus)
+  else if ch = 'O' then (.music .octave, mus)
+  else if ch = 'C' then (.music (.note 0 0), mus)
+  else if ch = 'D' then (.music (.note 2 0), mus)
+  else if ch = 'E' then (.music (.note 4 0), mus)
+  else if ch = 'F' then (.music (.note 5 0), mus)
+  else if ch = 'G' then (.music (.note 7 0), mus)
+  else if ch = 'A' then (.music (.note 9 0), mus)
+  else if ch = 'B' then (.music (.note 11 0), mus)
+  else if ch = 'M' then (.music .style, mus)
+  else if ch = '<' then (.music cur, { mus with oct := mus.oct - 1 })
+  else if ch = '>' then (.music cur, { mus with oct := if mus.oct < 6 then mus.oct + 1 else mus.oct })
+  else if ch = 'P' then (.music (.pause 0), mus)
+  else (.music cur, mus)
+
+/-- index of the note that is played: `FREQ[(n + cur_octave * 12).min(FREQ.len() - 1)]` -/
+def freqIdx (n oct : Nat) : Nat := min (n + oct * 12) (FREQ_LEN - 1)
+
+/-- `parse_ansi_music`: new parser state, new music fields, Ok/Err -/
+def musicStep (m : MusicSt) (mus : Mus) (ch : Char) : PSt × Mus × Out :=
   match m with
   | .style =>
-    if ch = 'F' ∨ ch = 'B' ∨ ch = 'N' ∨ ch = 'L' ∨ ch = 'S' then (.music .other, .ok)
-    else (musicDefault ch, .ok)      -- state was set to Default, then `parse_ansi_music(ch)` again
-  | .octave => if '0' ≤ ch ∧ ch ≤ '6' then (.music .other, .ok) else (.music .octave, .err)
-  | .other => (musicDefault ch, .ok)
+    if ch = 'F' then (.music .dflt, { mus with acts := mus.acts ++ [.style 0] }, .ok)
+    else if ch = 'B' then (.music .dflt, { mus with acts := mus.acts ++ [.style 1] }, .ok)
+    else if ch = 'N' then (.music .dflt, { mus with acts := mus.acts ++ [.style 2] }, .ok)
+    else if ch = 'L' then (.music .dflt, { mus with acts := mus.acts ++ [.style 3] }, .ok)
+    else if ch = 'S' then (.music .dflt, { mus with acts := mus.acts ++ [.style 4] }, .ok)
+    else ((musicDefault .dflt mus ch).1, (musicDefault .dflt mus ch).2, .ok)
+  | .tempo x =>
+    -- `parse_next_number(x as i32, ch) as u16`
+    if isDigit ch then (.music (.tempo ((parseNextNumber x ch).toNat % 65536)), mus, .ok)
+    else
+      let mus := { mus with tempo := clampI x 32 255 }
+      ((musicDefault .dflt mus ch).1, (musicDefault .dflt mus ch).2, .ok)
+  | .octave =>
+    if '0' ≤ ch ∧ ch ≤ '6' then (.music .dflt, { mus with oct := ch.toNat - 48 }, .ok) else (.music .octave, mus, .err)
+  | .note n len =>
+    if ch = '+' ∨ ch = '#' then ((if n + 1 < FREQ_LEN then .music (.note (n + 1) len) else .music .dflt), mus, .ok)
+    else if ch = '-' then ((if n > 0 then .music (.note (n - 1) len) else .music .dflt), mus, .ok)
+    else if isDigit ch then (.music (.note n (parseNextNumber len ch)), mus, .ok)
+    else if ch = '.' then (.music (.note n (satMul len 3 / 2)), { mus with dotted := true }, .ok)
+    else
+      let l := if len = 0 then mus.mlen else len
+      let mus := { mus with acts := mus.acts ++ [.note (freqIdx n mus.oct) (satMul mus.tempo l) mus.dotted], dotted := false }
+      ((musicDefault .dflt mus ch).1, (musicDefault .dflt mus ch).2, .ok)
+  | .length x =>
+    if isDigit ch then (.music (.length (parseNextNumber x ch)), mus, .ok)
+    else if ch = '.' then (.music (.length (satMul x 3 / 2)), mus, .ok)
+    else
+      let mus := { mus with mlen := clampI x 1 64 }
+      ((musicDefault (.length x) mus ch).1, (musicDefault (.length x) mus ch).2, .ok)
+  | .pause x =>
+    if isDigit ch then (.music (.pause (parseNextNumber x ch)), mus, .ok)
+    else if ch = '.' then (.music (.pause (satMul x 3 / 2)), mus, .ok)
+    else
+      let mus := { mus with acts := mus.acts ++ [.pause (mus.tempo * clampI x 1 64)] }
+      ((musicDefault (.pause x) mus ch).1, (musicDefault (.pause x) mus ch).2, .ok)
+  | .dflt => ((musicDefault .dflt mus ch).1, (musicDefault .dflt mus ch).2, .ok)
+
+/-- the one plain `i32` multiplication of `sound.rs`: `self.cur_tempo * pause` when a pause is emitted -/
+def MusicSafe (ps : PSt) (mus : Mus) (ch : Char) : Prop :=
+  match ps with
+  | .music (.pause x) => isDigit ch = true ∨ ch = '.' ∨ InI32 (mus.tempo * clampI x 1 64)
+  | _ => True
+instance (ps : PSt) (mus : Mus) (ch : Char) : Decidable (MusicSafe ps mus ch) := by
+  unfold MusicSafe; split <;> infer_instance
+
+/-- entering music mode (`CSI M` / `CSI N` / `CSI |`): a fresh action list, `dotted_note = false` -/
+def musicEnter (mus : Mus) : Mus := { mus with acts := [], dotted := false }
 
 end IcyVerif.Term
